@@ -90,7 +90,15 @@ LateReset == << "hold:ds.ptimer.fire", "hold:ds.woken", "hold:ds.retry.abort",
                 "release:ds.retry.abort" >>
 LateResetCases == { [cluster |-> cl, script |-> sc, try |-> TRUE, hold |-> "none", during |-> "none", hold2 |-> "none", body |-> FALSE,
                      steps |-> LateReset] : cl \in {"direct", "r1"}, sc \in {<<"gs503", "ok">>, <<"gs503", "hang">>} }
-StepCases == LateResetCases \cup { [cluster |-> cl, script |-> sc, try |-> (t = "ptimer"), hold |-> "none", during |-> "none", hold2 |-> "none", body |-> FALSE,
+(* Read off the TLC counterexample of stream/BaseStream.tla with defect "CheckThenAct": a timer callback resets the
+   upstream stream and is held while it notifies the listeners under the stream mutex (gate bs.reset.locked = step
+   r.notify); the upstream's answer arrives meanwhile and its goroutine claims the stream for destruction (d.claim) and
+   waits for the mutex; then the resetter goes on (r.unlock, its own deferred DestroyStream).  The pools' OnDestroyStream
+   must have run exactly once: the books are back at zero at quiescence (C10), one reply (C03). *)
+ResetVsResponse == << "hold:bs.reset.locked", "arrive:bs.reset.locked", "do:upresp", "pause:30", "release:bs.reset.locked" >>
+ResetVsResponseCases == { [cluster |-> cl, script |-> sc, try |-> t, hold |-> "none", during |-> "none", hold2 |-> "none", body |-> b,
+                           steps |-> ResetVsResponse] : cl \in {"direct", "r1"}, sc \in {<<"gate">>, <<"gate", "ok">>}, t \in BOOLEAN, b \in BOOLEAN }
+StepCases == LateResetCases \cup ResetVsResponseCases \cup { [cluster |-> cl, script |-> sc, try |-> (t = "ptimer"), hold |-> "none", during |-> "none", hold2 |-> "none", body |-> FALSE,
                 steps |-> StaleTimer(t)] : cl \in {"r1", "r2"}, sc \in {<<"ok">>, <<"hang">>, <<"s503", "ok">>, <<"close">>}, t \in {"ptimer", "gtimer"} }
 
 VARIABLE c
